@@ -298,8 +298,14 @@ def build_tu(job):
             parts.append(val)
     # prototypes first (functions may call each other in any order)
     for cname, e in emitted:
-        parts.append(e['sig'] + ';')
+        if cname not in job.get('stub_bodies', ()):
+            parts.append(e['sig'] + ';')
     for cname, e in emitted:
+        if cname in job.get('stub_bodies', ()):
+            # only the (abstract) contract of this callee is used in this job: declaration + contract, no body
+            parts.append('/* ---- contract only: %s ---- */' % cname)
+            parts.append(e['sig'] + '\n' + spec.get(('contract', cname), '') + ';')
+            continue
         parts.append('/* ---- extracted: %s ---- */' % cname)
         parts.append(e['text'])
     for hname in (job['harness_sections'] if 'harness_sections' in job else [job['functions'][0]]):
